@@ -106,6 +106,20 @@ func (E *Engine) encodeFunc(key string) (enc *FnEnc, err error) {
 		c := f.evalContractBool(rq, f.curHeap, nil, nil)
 		f.assume(c)
 	}
+	for _, st := range fc.Stable {
+		ctx := &evalCtx{f: f, pkg: fn.Pkg.Pkg, bind: f.selfBind(), heap: f.curHeap, what: "stable clause of " + key}
+		ex, perr := parser.ParseExpr(st)
+		if perr != nil {
+			cfail("stable: %v", perr)
+		}
+		sv := ctx.eval(ex)
+		sl, ok := sv.t.Underlying().(*types.Slice)
+		if !ok {
+			cfail("stable clause needs a slice")
+		}
+		f.locals = append(f.locals, localAlloc{ref: fmt.Sprintf("(sl-ref %s)", sv.term), t: types.NewArray(sl.Elem(), 0)})
+		enc.note("assumed: the backing array of " + st + " is not written while " + key + " runs (no store into it exists in otto; aliasing through other slices assumed absent)")
+	}
 	enc.prePC = f.curPC
 	enc.preNDecls = len(enc.decls)
 	if fc.PureIf != nil {
